@@ -102,13 +102,14 @@ class QueueLog:
         while self.n < len(calls):
             c = calls[self.n]
             self.n += 1
+            # (by object, not by name: a plan may repeat a name)
             if c["kind"] == "alloc_handed":
-                if c["obs"] not in self.q:
-                    self.q.append(c["obs"])
+                if (c["obs"], c.get("oid")) not in self.q:
+                    self.q.append((c["obs"], c.get("oid")))
             elif c["kind"] == "hot_remove" and c["ret"]:
-                if c["obs"] in self.q:
-                    self.q.remove(c["obs"])
-        return list(self.q)
+                if (c["obs"], c.get("oid")) in self.q:
+                    self.q.remove((c["obs"], c.get("oid")))
+        return [n for n, _ in self.q]
 
 
 def freeze(x):
